@@ -133,7 +133,7 @@ def run(tier, pid):
 
 
 def replay(case, pid=None):
-    if case.get("part") == "snap":
+    if case.get("part") in ("snap", "twin"):
         from mcx.checks import c05snap
         return c05snap.replay(case)
     if case.get("prior_universe"):
